@@ -98,7 +98,7 @@ def run(ctx):
                 "(fixed and harvested from observed segment costs = exact ties); non-trivial: at least one interior "
                 "index retained (a split to explain) and at least one retained segment with interior points")
     ctx.assumptions += numeric.ASSUMPTIONS + [
-        "cost classes are bit-exact comparisons of rdp.compute_cost_coef on the identical sub-array with t (R2 inverted); "
+        "cost classes are bit-exact comparisons of the metric primitive (linear_fit.<metric>_points, chosen by name) on the identical sub-array with t (R2 inverted); "
         "NaN costs are class 'nan' (either side allowed)",
         "far sets: interior indices within max(1e-9*max, 1e-12*scale, eps) of the maximal library distance",
         "results with more than %d retained points are not validated (table size)" % KMAX]
